@@ -435,6 +435,7 @@ func CheckMain(root, id, tier string, seed uint64) int {
 	})
 	newViolations := 0
 	knownHits := 0
+	var unconfirmed []string
 	replayDir := filepath.Join(root, "replays")
 	if old, _ := filepath.Glob(filepath.Join(replayDir, id+"-*.json")); len(old) > 0 {
 		for _, f := range old {
@@ -455,29 +456,48 @@ func CheckMain(root, id, tier string, seed uint64) int {
 		min := minimizeFinding(dir, f)
 		name := fmt.Sprintf("%s-%s-%d.json", id, sanitize(v.Rule), n)
 		path := writeReplay(replayDir, name, min)
-		// confirm in a fresh process
-		viol, died, hung, _ := replayChild(path, f.Race, 120*time.Second)
+		// confirm in a fresh process (a few attempts: the one source of
+		// nondeterminism that cannot be seeded, Go map iteration order inside the
+		// library, can decide whether some violations manifest in a given run)
 		confirmed := false
-		for _, rv := range viol {
-			if rv.Rule == v.Rule {
+		for attempt := 0; attempt < 4 && !confirmed; attempt++ {
+			viol, died, hung, _ := replayChild(path, f.Race, 120*time.Second)
+			for _, rv := range viol {
+				if rv.Rule == v.Rule {
+					confirmed = true
+				}
+			}
+			if v.Rule == "process-death" && died != "" {
 				confirmed = true
 			}
-		}
-		if v.Rule == "process-death" && died != "" {
-			confirmed = true
-		}
-		if v.Rule == "hang" && hung {
-			confirmed = true
+			if v.Rule == "hang" && hung {
+				confirmed = true
+			}
+			if !confirmed && attempt == 1 && min != f {
+				// the minimised case may have lost the behaviour: fall back to the original
+				path = writeReplay(replayDir, name, f)
+			}
 		}
 		if !confirmed {
-			fmt.Fprintf(os.Stderr, "HARNESS TROUBLE: violation %s did not reproduce from its replay file %s\n", v, path)
-			return 2
+			// never reported as a violation: a violation comes with a replay file that reproduces it
+			unconfirmed = append(unconfirmed, fmt.Sprintf("%s (replay %s)", v, path))
+			os.Remove(path)
+			continue
 		}
 		newViolations++
 		fmt.Printf("violation: %s\n", min.Viol[0])
 		fmt.Printf("VIOLATION property=%s replay=%s\n", id, path)
 	}
 
+	if len(unconfirmed) > 0 {
+		for _, u := range unconfirmed {
+			fmt.Fprintf(os.Stderr, "note: observed in the batch but not reproducible from a single-case replay in a fresh process (e.g. state leaking between cases through process-global variables, or dependent on Go map iteration order): %s\n", trunc(u, 400))
+		}
+		if newViolations == 0 && knownHits == 0 {
+			fmt.Fprintln(os.Stderr, "HARNESS TROUBLE: violations were observed but none reproduces from its replay file (exit 2, not a verdict)")
+			return 2
+		}
+	}
 	wall := time.Since(start).Seconds()
 	if err := writeEvidence(root, p, tier, seed, seeds, total, len(digests), len(traces), samples, fixedDone, seededDone, wall, newViolations, knownHits, raceWorkers > 0); err != nil {
 		fmt.Fprintln(os.Stderr, "evidence:", err)
